@@ -240,11 +240,11 @@ func init() {
 		Cases: func(tier string, seed int64) []fw.Case {
 			l := mkCases(nil, "positions", 32, seed, pick(tier, 600, 12000))
 			l = append(l, fw.Case{Idx: len(l), Kind: "books", Seed: seed})
-			l = mkCases(l, "linebooks", 4, seed, pick(tier, 10, 300))
+			l = mkCases(l, "linebooks", 4, seed, pick(tier, 60, 1500))
 			return l
 		},
 		Floors: func(string) map[string]int64 {
-			return map[string]int64{"positions": 2000, "mirror_checks": 8000, "plausible_checks": 8000, "book_lookups": 9000, "book_hits": 20, "considerable_selected": 500, "boxed_king_positions": 300}
+			return map[string]int64{"positions": 2000, "mirror_checks": 8000, "plausible_checks": 8000, "book_lookups": 9000, "book_hits": 20, "considerable_selected": 500, "boxed_king_positions": 300, "book_variant_lookups": 200}
 		},
 		Run: func(c *fw.Ctx, cs fw.Case) {
 			r := cs.Rand()
@@ -300,7 +300,11 @@ func init() {
 					var lines []engine.Line
 					var hists []gen.Hist
 					for j := 0; j < 1+r.Intn(6); j++ {
-						h := gen.Playout(r, gen.Starts()[0], 1+r.Intn(14), gen.Biases[r.Intn(len(gen.Biases))])
+						bias := gen.Biases[r.Intn(len(gen.Biases))]
+						if j%2 == 0 {
+							bias = gen.Bias{Capture: 2, Check: 1, Promo: 1, Castle: 1, EP: 500, Quiet: 1, PawnMove: 4} // en passant as soon as possible
+						}
+						h := gen.Playout(r, gen.Starts()[0], 1+r.Intn(14), bias)
 						hists = append(hists, h)
 						lines = append(lines, engine.Line(h.MoveStrs()))
 					}
@@ -317,6 +321,20 @@ func init() {
 						for _, m := range h.Moves {
 							p = p.Apply(m)
 							checkBook(c, "lines", bk, p)
+							// the same placement reached by another move order: no e.p. right / fewer castling rights.
+							// Whatever the book answers there must be legal there.
+							if p.EP >= 0 {
+								q := p
+								q.EP = -1
+								checkBook(c, "lines", bk, q)
+								c.Count("book_variant_lookups", 1)
+							}
+							if p.Cast != 0 && r.Intn(3) == 0 {
+								q := p
+								q.Cast &^= uint8(1 << uint(r.Intn(4)))
+								checkBook(c, "lines", bk, q)
+								c.Count("book_variant_lookups", 1)
+							}
 						}
 					}
 				}
